@@ -897,9 +897,11 @@ impl MemoryLoc {
                 let mut off = 0;
                 macro_rules! mem_cpy_loop {
                     ($width:expr) => {
-                        while (off + $width) <= (ty.stride() as i32 / $width) * $width {
+                        while (off + $width) <= ty.size() as i32 {
+                            // the constant has to be exactly as wide as the step,
+                            // or else the store would run past the end of the type
                             let val = builder.ins().iconst(
-                                cranelift::codegen::ir::Type::int_with_byte_size(8).unwrap(),
+                                cranelift::codegen::ir::Type::int_with_byte_size($width).unwrap(),
                                 val as i64,
                             );
                             builder
